@@ -266,7 +266,11 @@ func (t TOpt) setOpt() []sif.SetOpt {
 	return nil
 }
 
-func (s Sel) build() sif.DescriptorSelectorFunc {
+func (s Sel) build() sif.DescriptorSelectorFunc { return s.buildOn(nil) }
+
+// buildOn: nestHandle is the handle a caller's selector function queries from inside (Sel.Nest):
+// the one the selector is about to be handed to
+func (s Sel) buildOn(nestHandle *sif.FileImage) sif.DescriptorSelectorFunc {
 	switch s.Kind {
 	case "dt":
 		return sif.WithDataType(sif.DataType(s.N))
@@ -298,6 +302,12 @@ func (s Sel) build() sif.DescriptorSelectorFunc {
 					}
 				}
 				return false
+			}
+			if s.Nest && nestHandle != nil {
+				// re-entrant read-only use of the same handle from inside the selector
+				_, _ = nestHandle.GetDescriptors(sif.WithDataType(d.DataType()))
+				_, _ = nestHandle.GetDescriptor(sif.WithID(d.ID()))
+				nestHandle.WithDescriptors(func(sif.Descriptor) bool { return false })
 			}
 			if in(s.E, d.ID()) || (s.ET != 0 && int64(d.DataType()) == s.ET) {
 				return false, errCallerPred
@@ -707,7 +717,7 @@ func (e *Env) applyCore(op *Op) []string {
 		}
 		var fns []sif.DescriptorSelectorFunc
 		for _, s := range op.Sels {
-			fns = append(fns, s.build())
+			fns = append(fns, s.buildOn(e.f))
 		}
 		if op.One {
 			d, err := e.f.GetDescriptor(fns...)
@@ -905,7 +915,7 @@ func (e *Env) applyCore(op *Op) []string {
 	case "del":
 		opts := op.T.delOpt()
 		opts = append(opts, sif.OptDeleteZero(op.Zero), sif.OptDeleteCompact(op.Compact))
-		err = e.f.DeleteObjects(op.Sel.build(), opts...)
+		err = e.f.DeleteObjects(op.Sel.buildOn(e.f), opts...)
 	case "setprim":
 		err = e.f.SetPrimPart(op.ID, op.T.setOpt()...)
 	case "setmeta":
